@@ -158,3 +158,34 @@ def r08_4(prog, out):
             out.holds(key, bi.loc(bb), "ids come from the actor's reply through order-preserving adapters (other calls on the path: %s)" % sorted(unknown)[:6])
         else:
             out.holds(key, bi.loc(bb), "ids come from the actor's reply through iter().map(to_string).collect()")
+
+
+@rule("C08", "R08.5", "one Publish request is handed to the topic actor as one request carrying all its messages", floor=1)
+def r08_5(prog, out):
+    A = prog.anchors
+    sl = Slicer(prog)
+    h = prog.handler("publish")
+    if h is None:
+        raise CheckBroken("publish handler not found")
+    target = A.ty("Topic") + "::publish_messages"
+    n = 0
+    for bid in prog.cone(h.root, follow=("call", "closure", "poll")):
+        bi = prog.info(bid)
+        if bi is None:
+            continue
+        for bb, t in bi.calls(lambda c: c.target == target):
+            n += 1
+            key = "one-request:%s" % prog.short(bid)
+            s = sl.of_resolved(bid, t.args[1])
+            cut = sorted({c.split("::")[-1] for c in s.calls} & {"chunks", "chunks_exact", "take", "skip", "split_at", "split_off", "drain", "truncate", "step_by", "windows", "filter", "rev"})
+            if bi.cfg.in_loop(bb):
+                out.violation(key, bi.loc(bb), "Publish sends its messages to the topic actor in several requests (the call sits in a loop): batches of concurrent "
+                              "publishers interleave, so the messages of one Publish are neither contiguous nor numbered contiguously")
+            elif cut:
+                out.violation(key, bi.loc(bb), "only part of the request's messages is handed to the topic actor in this call (%s)" % cut)
+            elif ("crate::pubsub_proto::PublishRequest", "messages") in s.fields:
+                out.holds(key, bi.loc(bb), "the whole request.messages vector goes to the actor in one request")
+            else:
+                out.undecided(key, bi.loc(bb), "origin of the published vector not recognised")
+    if n == 0:
+        raise CheckBroken("publish handler never calls Topic::publish_messages")
